@@ -131,8 +131,8 @@ def run_plan_shared(x, wd):
 def config_inputs():
     out = []
     for u in ("absent", "seconds", "minutes", "hours", "int"):
-        for ui in (1, 2, 60, 90, 3600):
-            for s, d, r, f, b in itertools.product((0, 3), (1, 5), (1, 4), (2, 7), (1, 3)):
+        for ui in (1, 2, 7, 60, 75, 90, 300, 600, 3600):
+            for s, d, r, f, b in itertools.product((0, 3, 7), (1, 5, 7, 15, 29), (1, 4), (2, 7), (1, 3)):
                 out.append({"unit": u, "ui": ui, "start": s, "dur": d, "rate": r, "flops": f, "bw": b,
                             "hotrate": 5, "coldrate": 2})
     return out
@@ -178,8 +178,11 @@ def run_config(x, wd):
             "cold": {"rate": _as_int(cold[0].max_data_rate, "cold rate"), "cap": int(cold[0].total_capacity)},
             "volume": _as_int(o.ingest_data_rate * o.duration, "volume"),
         }
-    except ValueError:
-        raise
+    except ValueError as e:
+        # a parsed value that should be a whole number is not: that is a verdict
+        # for TLC (the record does not satisfy ConfigOK), not a harness failure
+        rec["raised"] = str(e)[:60]
+        rec["y"] = {}
     except Exception as e:  # noqa
         rec["raised"] = type(e).__name__
     return rec
